@@ -37,7 +37,9 @@ func c13Stmt(r *simrt.RNG, depth int) string {
 		n = 1000 + r.Intn(1000000) // identifiers this process has most likely never seen
 	}
 	a, b := 1+r.Intn(5), 1+r.Intn(5)
-	switch r.Intn(12) {
+	switch r.Intn(13) {
+	case 12:
+		return fmt.Sprintf("mutex mx%d {\n    g%d := %d\n}", n%5, n, a)
 	case 0:
 		return fmt.Sprintf("a%d := {\"x\": %d, \"y\": [%d, %d]}", n, a, a, b)
 	case 1:
